@@ -272,7 +272,10 @@ func retainRecurseSearch(root *node, levels []string, retained *[]*mqttp.Publish
 		case topicsTypes.SWC:
 			// If '+', check all nodes at this level. Next levels must be matched.
 			root.children.Range(func(key, value interface{}) bool {
-				retainRecurseSearch(value.(*node), levels[1:], retained)
+				// a wildcard in the first level never matches a '$' topic
+				if root.parent != nil || !strings.HasPrefix(key.(string), "$") {
+					retainRecurseSearch(value.(*node), levels[1:], retained)
+				}
 
 				return true
 			})
